@@ -32,10 +32,14 @@ Definition Sqrt_3mod4_stmt := forall p a, 1 < p -> p mod 4 = 3 -> cong p (a ^ ((
 Lemma sqrt_3mod4_correct : Sqrt_3mod4_stmt.
 Proof.
   intros p a Hp H4 He x. subst x.
-  rewrite (powmod_cong p a ((p + 1) / 4)) by lia.
-  rewrite <- Z.pow_add_r by lia.
-  replace ((p + 1) / 4 + (p + 1) / 4) with ((p - 1) / 2 + 1) by lia.
-  rewrite Z.pow_add_r, Z.pow_1_r by lia. rewrite He. replace (1 * a) with a by ring. reflexivity.
+  assert (Hk : exists k, 0 <= k /\ p = 4 * k + 3) by (exists (p / 4); lia).
+  destruct Hk as [k [Hk0 ->]].
+  replace ((4 * k + 3 - 1) / 2) with (2 * k + 1) in He by lia.
+  replace ((4 * k + 3 + 1) / 4) with (k + 1) by lia. clear H4 Hp.
+  rewrite (powmod_cong (4 * k + 3) a (k + 1)) by lia.
+  transitivity (a ^ (2 * k + 1) * a); [|rewrite He; replace (1 * a) with a by ring; reflexivity].
+  apply eq_subrelation; [typeclasses eauto|].
+  replace (2 * k + 1) with (k + k + 1) by ring. rewrite !Z.pow_add_r, !Z.pow_1_r by lia. ring.
 Qed.
 
 (* ---------------------------------------------------------------------------------------- Atkin, p = 5 mod 8 *)
@@ -50,29 +54,34 @@ Definition Sqrt_atkin_stmt := forall p a, prime p -> p mod 8 = 5 ->
 Lemma sqrt_atkin_correct : Sqrt_atkin_stmt.
 Proof.
   intros p a Hp H8 He H2. assert (Hp1 : 1 < p) by (destruct Hp; lia).
-  unfold atkin. destruct (Z.eqb_spec (powmod a ((p - 1) / 4) p) 1) as [E|E].
+  unfold atkin.
+  assert (Hk : exists k, 0 <= k /\ p = 8 * k + 5) by (exists (p / 8); lia).
+  destruct Hk as [k [Hk0 Hpk]].
+  replace ((p - 1) / 2) with (4 * k + 2) in * by lia.
+  replace ((p - 1) / 4) with (2 * k + 1) in * by lia.
+  replace ((p + 3) / 8) with (k + 1) by lia.
+  replace ((p - 5) / 8) with k by lia. clear H8.
+  destruct (Z.eqb_spec (powmod a (2 * k + 1) p) 1) as [E|E].
   - apply powmod_eq_1 in E; [|lia|lia].
-    rewrite (powmod_cong p a ((p + 3) / 8)) by lia.
-    rewrite <- Z.pow_add_r by lia.
-    replace ((p + 3) / 8 + (p + 3) / 8) with ((p - 1) / 4 + 1) by lia.
-    rewrite Z.pow_add_r, Z.pow_1_r by lia. rewrite E. replace (1 * a) with a by ring. reflexivity.
+    rewrite (powmod_cong p a (k + 1)) by lia.
+    transitivity (a ^ (2 * k + 1) * a); [|rewrite E; replace (1 * a) with a by ring; reflexivity].
+    apply eq_subrelation; [typeclasses eauto|].
+    replace (2 * k + 1) with (k + k + 1) by ring. rewrite !Z.pow_add_r, !Z.pow_1_r by lia. ring.
   - (* t = a^((p-1)/4) squares to 1, is not 1, hence is -1 *)
-    assert (Ht : cong p (a ^ ((p - 1) / 4)) (-1)).
-    { assert (Hsq : cong p (a ^ ((p - 1) / 4) * a ^ ((p - 1) / 4)) 1).
-      { rewrite <- Z.pow_add_r by lia. replace ((p - 1) / 4 + (p - 1) / 4) with ((p - 1) / 2) by lia. exact He. }
+    assert (Ht : cong p (a ^ (2 * k + 1)) (-1)).
+    { assert (Hsq : cong p (a ^ (2 * k + 1) * a ^ (2 * k + 1)) 1).
+      { transitivity (a ^ (4 * k + 2)); [|exact He]. apply eq_subrelation; [typeclasses eauto|].
+        replace (4 * k + 2) with (2 * k + 1 + (2 * k + 1)) by ring. rewrite !Z.pow_add_r by lia. ring. }
       destruct (cong_prime_sq_1 _ _ Hp Hsq) as [H1|H1]; [|exact H1].
       exfalso. apply E. apply (cong_eq_small p); [apply powmod_range; lia | lia |].
-      rewrite (powmod_cong p a ((p - 1) / 4)) by lia. exact H1. }
-    rewrite cong_rem. rewrite (powmod_cong p (a * 4) ((p - 5) / 8)) by lia.
-    set (m := (p - 5) / 8).
-    transitivity (((a * 4) ^ m * (a * 4) ^ m * (a * 4)) * a); [replace (a * 4) with (4 * a) by ring; apply eq_subrelation; [typeclasses eauto|ring]|].
-    assert (Hpow : (a * 4) ^ m * (a * 4) ^ m * (a * 4) = (a * 4) ^ ((p - 1) / 4)).
-    { replace ((p - 1) / 4) with (m + m + 1) by lia. rewrite !Z.pow_add_r, Z.pow_1_r by lia. ring. }
-    rewrite Hpow.
-    rewrite Z.pow_mul_l.
-    assert (H4 : 4 ^ ((p - 1) / 4) = 2 ^ ((p - 1) / 2)).
-    { replace ((p - 1) / 2) with (2 * ((p - 1) / 4)) by lia. rewrite Z.pow_mul_r by lia. reflexivity. }
-    rewrite H4, Ht, H2. replace (-1 * -1 * a) with a by ring. reflexivity.
+      rewrite (powmod_cong p a (2 * k + 1)) by lia. exact H1. }
+    rewrite cong_rem. rewrite (powmod_cong p (a * 4) k) by lia.
+    transitivity (2 ^ (4 * k + 2) * a ^ (2 * k + 1) * a).
+    { apply eq_subrelation; [typeclasses eauto|].
+      replace (4 * k + 2) with (2 * (2 * k + 1)) by ring. rewrite (Z.pow_mul_r 2 2) by lia.
+      change (2 ^ 2) with 4. replace (2 * k + 1) with (k + k + 1) by ring.
+      rewrite Z.pow_mul_l. rewrite !Z.pow_add_r, !Z.pow_1_r by lia. ring. }
+    rewrite Ht, H2. replace (-1 * -1 * a) with a by ring. reflexivity.
 Qed.
 
 (* ---------------------------------------------------------------------------------------- Mueller, p = 9 mod 16 *)
@@ -104,63 +113,61 @@ Definition Sqrt_mueller_stmt := forall p a draws x, prime p -> p mod 16 = 9 ->
 Lemma sqrt_mueller_correct : Sqrt_mueller_stmt.
 Proof.
   intros p a draws x Hp H16 Ha H2 Hdr. assert (Hp1 : 2 < p) by (destruct Hp; lia).
-  unfold mueller.
-  set (s := if powmod (a * 2) ((p - 1) / 4) p =? 1 then 1 else -1).
+  unfold mueller, legendre.
+  assert (Hk : exists k, 0 <= k /\ p = 16 * k + 9) by (exists (p / 16); lia).
+  destruct Hk as [k [Hk0 Hpk]].
+  replace ((p - 1) / 2) with (8 * k + 4) in * by lia.
+  replace ((p - 1) / 4) with (4 * k + 2) in * by lia.
+  replace ((p - 9) / 16) with k by lia.
+  replace (p - 1) with (16 * k + 8) in Hdr by lia. clear H16.
+  set (s := if powmod (a * 2) (4 * k + 2) p =? 1 then 1 else -1).
   destruct (pick _ draws) as [d|] eqn:Epick; [|discriminate]. intros [= <-].
   apply pick_spec in Epick. destruct Epick as [Hin Hok].
   rewrite Forall_forall in Hdr. destruct (Hdr d Hin) as [Hdrange Hfermat].
   (* s = (2a)^((p-1)/4), and s = 1 or -1 *)
-  assert (Hsq2a : cong p ((a * 2) ^ ((p - 1) / 4) * (a * 2) ^ ((p - 1) / 4)) 1).
-  { rewrite <- Z.pow_add_r by lia. replace ((p - 1) / 4 + (p - 1) / 4) with ((p - 1) / 2) by lia.
-    rewrite Z.pow_mul_l, Ha, H2. reflexivity. }
-  assert (Hs : cong p ((a * 2) ^ ((p - 1) / 4)) s /\ (s = 1 \/ s = -1)).
-  { subst s. destruct (Z.eqb_spec (powmod (a * 2) ((p - 1) / 4) p) 1) as [E|E].
+  assert (Hsq2a : cong p ((a * 2) ^ (4 * k + 2) * (a * 2) ^ (4 * k + 2)) 1).
+  { transitivity (a ^ (8 * k + 4) * 2 ^ (8 * k + 4)); [|rewrite Ha, H2; reflexivity].
+    apply eq_subrelation; [typeclasses eauto|].
+    replace (8 * k + 4) with (4 * k + 2 + (4 * k + 2)) by ring. rewrite Z.pow_mul_l, !Z.pow_add_r by lia. ring. }
+  assert (Hs : cong p ((a * 2) ^ (4 * k + 2)) s /\ (s = 1 \/ s = -1)).
+  { subst s. destruct (Z.eqb_spec (powmod (a * 2) (4 * k + 2) p) 1) as [E|E].
     - split; [|left; reflexivity]. apply powmod_eq_1; [lia|lia|exact E].
     - split; [|right; reflexivity]. destruct (cong_prime_sq_1 _ _ Hp Hsq2a) as [H1|H1]; [|exact H1].
       exfalso. apply E. apply (cong_eq_small p); [apply powmod_range; lia | lia |].
-      rewrite (powmod_cong p (a * 2) ((p - 1) / 4)) by lia. exact H1. }
+      rewrite (powmod_cong p (a * 2) (4 * k + 2)) by lia. exact H1. }
   destruct Hs as [Hs Hs1].
   (* the draw: d^((p-1)/2) = -s *)
-  assert (Hd : cong p (d ^ ((p - 1) / 2)) (- s)).
+  assert (Hd : cong p (d ^ (8 * k + 4)) (- s)).
   { assert (Hdm : d mod p <> 0) by (rewrite Z.mod_small by lia; lia).
     apply negb_true_iff in Hok. apply Z.eqb_neq in Hok.
-    destruct Hs1 as [-> | ->].
-    - (* legendre d p <> 1, d a unit: legendre = -1, so d^((p-1)/2) <> 1; its square is 1 *)
-      assert (Hl : legendre d p = -1).
-      { destruct (legendre_values d p) as [H0|[H0|H0]]; [|contradiction|exact H0].
-        unfold legendre in H0. destruct (Z.eqb_spec (d mod p) 0); [contradiction|].
-        destruct (_ =? 1); discriminate. }
-      apply legendre_minus_one in Hl; [|lia].
-      assert (Hsq : cong p (d ^ ((p - 1) / 2) * d ^ ((p - 1) / 2)) 1).
-      { rewrite <- Z.pow_add_r by lia. replace ((p - 1) / 2 + (p - 1) / 2) with (p - 1) by lia. exact Hfermat. }
+    destruct (Z.eqb_spec (d mod p) 0) as [|_]; [contradiction|].
+    destruct (Z.eqb_spec (powmod d (8 * k + 4) p) 1) as [E|E].
+    - (* legendre d p = 1 <> s: s = -1 *)
+      destruct Hs1 as [-> | ->]; [contradiction Hok; reflexivity|].
+      apply powmod_eq_1; [lia|lia|exact E].
+    - destruct Hs1 as [-> | ->]; [|contradiction Hok; reflexivity].
+      assert (Hsq : cong p (d ^ (8 * k + 4) * d ^ (8 * k + 4)) 1).
+      { transitivity (d ^ (16 * k + 8)); [|exact Hfermat]. apply eq_subrelation; [typeclasses eauto|].
+        replace (16 * k + 8) with (8 * k + 4 + (8 * k + 4)) by ring. rewrite !Z.pow_add_r by lia. ring. }
       destruct (cong_prime_sq_1 _ _ Hp Hsq) as [H1|H1]; [|exact H1].
-      exfalso. apply Hl. apply (cong_eq_small p); [apply powmod_range; lia | lia |].
-      rewrite (powmod_cong p d ((p - 1) / 2)) by lia. exact H1.
-    - assert (Hl : legendre d p = 1).
-      { destruct (legendre_values d p) as [H0|[H0|H0]]; [|exact H0|contradiction].
-        unfold legendre in H0. destruct (Z.eqb_spec (d mod p) 0); [contradiction|].
-        destruct (_ =? 1); discriminate. }
-      apply legendre_one in Hl; [|lia]. exact Hl. }
+      exfalso. apply E. apply (cong_eq_small p); [apply powmod_range; lia | lia |].
+      rewrite (powmod_cong p d (8 * k + 4)) by lia. exact H1. }
   (* the computation *)
   set (i1 := a * 2 * d * d).
-  set (m := (p - 9) / 16).
-  rewrite !cong_rem. rewrite (powmod_cong p i1 m) by (subst m; lia).
-  set (z := i1 ^ m).
+  rewrite !cong_rem. rewrite (powmod_cong p i1 k) by lia.
+  set (z := i1 ^ k).
   set (Iv := i1 * z * z).
   transitivity ((z * d * (Iv - 1) * a) * (z * d * (Iv - 1) * a)).
   { apply eq_subrelation; [typeclasses eauto|]. subst Iv. ring. }
   apply mueller_algebra.
   - apply eq_subrelation; [typeclasses eauto|]. subst Iv i1. ring.
-  - assert (HI : Iv = i1 ^ ((p - 1) / 8)).
-    { subst Iv z. replace ((p - 1) / 8) with (1 + m + m) by (subst m; lia).
-      rewrite !Z.pow_add_r, Z.pow_1_r by (subst m; lia). ring. }
-    rewrite HI. rewrite <- Z.pow_add_r by lia.
-    replace ((p - 1) / 8 + (p - 1) / 8) with ((p - 1) / 4) by lia.
-    subst i1. replace (a * 2 * d * d) with ((a * 2) * (d * d)) by ring.
-    rewrite Z.pow_mul_l, Hs.
-    assert (Hdd : (d * d) ^ ((p - 1) / 4) = d ^ ((p - 1) / 2)).
-    { rewrite <- Z.pow_2_r, <- Z.pow_mul_r by lia. f_equal. lia. }
-    rewrite Hdd, Hd. apply eq_subrelation; [typeclasses eauto|]. destruct Hs1 as [-> | ->]; reflexivity.
+  - transitivity ((a * 2) ^ (4 * k + 2) * d ^ (8 * k + 4)).
+    { apply eq_subrelation; [typeclasses eauto|]. subst Iv z i1.
+      replace (8 * k + 4) with (2 * (4 * k + 2)) by ring. rewrite (Z.pow_mul_r d 2) by lia.
+      rewrite Z.pow_2_r. replace (4 * k + 2) with (k + k + 1 + (k + k + 1)) by ring.
+      rewrite <- Z.pow_mul_l. replace (a * 2 * (d * d)) with (a * 2 * d * d) by ring.
+      rewrite !Z.pow_add_r, !Z.pow_1_r by lia. ring. }
+    rewrite Hs, Hd. apply eq_subrelation; [typeclasses eauto|]. destruct Hs1 as [-> | ->]; reflexivity.
 Qed.
 
 (* ---------------------------------------------------------------------------------------- Tonelli-Shanks *)
